@@ -376,6 +376,21 @@ public:
       const cdg_t &cdg;
       const std::vector<basic_block_label_t> &roots;
       var_dom_t uses;
+      // whether some block that is (transitively) control-dependent on
+      // the branch defines a variable: the branch then decides which
+      // definitions reach the assertions that come after the branch.
+      bool region_has_defs;
+
+      void collect(const basic_block_label_t &n,
+                   std::unordered_set<basic_block_label_t> &visited) {
+        if (!visited.insert(n).second)
+          return;
+        auto it = cdg.find(n);
+        if (it == cdg.end())
+          return;
+        for (auto child : it->second)
+          collect(child, visited);
+      }
 
       // return true if we find a path in cdg from root to target
       // FIXME: do caching for the queries
@@ -412,18 +427,29 @@ public:
     public:
       add_control_deps(const cdg_t &_cdg,
                        const std::vector<basic_block_label_t> &_roots,
-                       const live_t &l)
-          : cdg(_cdg), roots(_roots), uses(var_dom_t::bottom()) {
+                       const live_t &l,
+                       const std::unordered_set<basic_block_label_t> &def_blocks)
+          : cdg(_cdg), roots(_roots), uses(var_dom_t::bottom()),
+            region_has_defs(false) {
         for (auto v : boost::make_iterator_range(l.uses_begin(), l.uses_end())) {
           uses += v;
 	}
+        std::unordered_set<basic_block_label_t> region;
+        for (auto r : roots)
+          collect(r, region);
+        for (auto const &b : region) {
+          if (def_blocks.find(b) != def_blocks.end()) {
+            region_has_defs = true;
+            break;
+          }
+        }
       }
 
       add_control_deps(const add_data_deps &o) = delete;
 
       std::pair<var_dom_t, bool> operator()(assert_wrapper_t w, var_dom_t d) {
         bool change = false;
-        if (reach(w.get().get_parent()->label())) {
+        if (region_has_defs || reach(w.get().get_parent()->label())) {
           d += uses;
           change = true;
         }
@@ -470,6 +496,8 @@ public:
     assert_map_t &m_assert_map;
     // control-dependence graph (it can be empty)
     const cdg_t &m_cdg;
+    // blocks that contain a statement that defines a variable
+    const std::unordered_set<basic_block_label_t> &m_def_blocks;
     // summaries from other functions
     summary_map_t &m_summaries;
     bool m_opt_ignore_region_offset;
@@ -588,7 +616,7 @@ public:
 		       crab::outs() << c << ";";
 		     }
 		     crab::outs() << "} control-dependent on " << pred << "\n";);
-	    add_control_deps op(m_cdg, children, s.get_live());
+	    add_control_deps op(m_cdg, children, s.get_live(), m_def_blocks);
 	    transform_sol_t cf;
 	    m_sol.get_first() = std::move(cf.apply_on_key_and_value(m_sol.get_first(), op));
 	    CRAB_LOG("assertion-crawler-step-control",
@@ -601,10 +629,12 @@ public:
   public:
     transfer_function(assertion_crawler_domain_t init,
 		      const cdg_t &g,
+		      const std::unordered_set<basic_block_label_t> &def_blocks,
 		      assert_map_t &assert_map,
 		      summary_map_t &summaries,
 		      bool ignore_region_offset)
-      : m_sol(init), m_assert_map(assert_map), m_cdg(g), m_summaries(summaries),
+      : m_sol(init), m_assert_map(assert_map), m_cdg(g), m_def_blocks(def_blocks),
+	m_summaries(summaries),
 	m_opt_ignore_region_offset(ignore_region_offset) {}
 
     assertion_crawler_domain_t get_solution() const {
@@ -859,6 +889,8 @@ private:
   assert_map_t &m_assert_map;
   summary_map_t &m_summaries;
   cdg_t m_cdg; // control dependencies
+  // blocks with a statement that defines a variable
+  std::unordered_set<basic_block_label_t> m_def_blocks;
 
   // only data-dependencies (no control)  
   bool m_opt_only_data; 
@@ -889,6 +921,14 @@ public:
     if (!m_opt_only_data) {
       crab::ScopedCrabStats __st__("Control-Dependency Graph");
       crab::analyzer::graph_algo::control_dep_graph(this->m_cfg, m_cdg);
+      for (auto &bb : boost::make_iterator_range(this->m_cfg.begin(), this->m_cfg.end())) {
+	for (auto &s : boost::make_iterator_range(bb.begin(), bb.end())) {
+	  if (s.get_live().defs_begin() != s.get_live().defs_end()) {
+	    m_def_blocks.insert(bb.label());
+	    break;
+	  }
+	}
+      }
     }
   }
 
@@ -908,7 +948,7 @@ public:
   virtual assertion_crawler_domain_t analyze(const basic_block_label_t &bb_id,
 					     assertion_crawler_domain_t out) override {
     auto &bb = this->m_cfg.get_node(bb_id);
-    transfer_function vis(out, m_cdg, m_assert_map, m_summaries,
+    transfer_function vis(out, m_cdg, m_def_blocks, m_assert_map, m_summaries,
 			  m_opt_ignore_region_offset);
     for (auto &s : boost::make_iterator_range(bb.rbegin(), bb.rend())) {
       s.accept(&vis);
@@ -1020,6 +1060,7 @@ public:
         typename assertion_crawler_op_t::transfer_function vis
 	  (it->second /* OUT dataflow facts */,
 	   m_assert_crawler_op.m_cdg,
+	   m_assert_crawler_op.m_def_blocks,
 	   m_assert_crawler_op.m_assert_map,
 	   m_assert_crawler_op.m_summaries,
 	   m_assert_crawler_op.m_opt_ignore_region_offset);
